@@ -78,7 +78,7 @@ class CalleeGen:
                 else:
                     f["dims"] = f"{lo}:{lo + 3}"
                 f["lo"] = [lo]
-                if mm_free and not force_arr and (not free_arr or r.random() < 0.3):
+                if mm_free and (not free_arr or (not (force_arr and pos == 0) and r.random() < 0.3)):
                     mm_free = False
                     f["actual"] = r.choice(["mm(:, j)", "mm(i, :)", "mm(1:4, 3)", "mm(2, 3:6)", "mm(0:3, j)",
                                             "mm(j, 3:7)"])
@@ -124,8 +124,8 @@ class CalleeGen:
             pool.remove("g")
             pool.insert(0, "g")
         ns = r.choice([0, 1, 1, 2, 2, 3])
-        if self.o.get("outer"):
-            ns = max(ns, 1)
+        if self.o.get("outer") or self.o.get("loopvar"):
+            ns = max(ns, 1)     # loopvar: the DO-variable formal is not assignable inside its loop; keep a target
         self.lscal = pool[:ns]
         pool = pool[ns:]
         if r.random() < 0.35 and pool:
